@@ -21,7 +21,7 @@ periodically, and the model is driven by the same calls in any interleaving.
 -/
 namespace Refinery.Model.StressRelief
 
-/-- integer square root with fuel (kernel-reducible); `isqrt n = ⌊√n⌋` (`Props.C15.isqrt_spec`). -/
+/-- integer square root with fuel (kernel-reducible); `isqrt n = ⌊√n⌋` (`Lemmas.StressRelief.isqrt_spec`). -/
 def isqrtF : Nat → Nat → Nat
   | 0, _ => 0
   | f + 1, n =>
